@@ -269,10 +269,15 @@ theorem zooCallback_bumpOK (leafKind cbKind : Nat → Nat) :
     cases r with
     | nil => simp
     | cons b t => by_cases h : b < 128 <;> simp [h]
+  have hc : bumpChar r ≤ r.length := by
+    unfold bumpChar
+    cases r with
+    | nil => simp
+    | cons b t => exact Nat.min_le_right _ _
   have hz : ∀ k, (zooRet k s r).2 ≤ r.length := by
     intro k
     unfold zooRet
-    split <;> first | exact hb | simp
+    split <;> first | exact hb | exact hc | simp
   unfold zooCallback
   by_cases h0 : (cbKind l == 0) = true
   · simp [h0]
